@@ -46,6 +46,7 @@ type StepSpec struct {
 	OutBytes     int      `json:"outBytes,omitempty"`
 	ErrBytes     int      `json:"errBytes,omitempty"`
 	SetupFail    bool     `json:"setupFail,omitempty"`    // stdout redirected into a non-existent directory
+	PadBytes     int      `json:"padBytes,omitempty"`     // agent level: a description of that many bytes (a big definition makes a big status document)
 	SubWorkflow  bool     `json:"subWorkflow,omitempty"`  // scheduler level: the step is marked as a sub-workflow call (run: child), still executed by the scripted executor
 	TeardownFail bool     `json:"teardownFail,omitempty"` // stdout redirected to /dev/full: the flush at teardown fails (ENOSPC)
 	OutputVar    string   `json:"outputVar,omitempty"`
